@@ -370,6 +370,8 @@ func (ex *Exec) abstractArgs(st *State, v Value) []*Term {
 		return r
 	case *FuncVal, *MapVal:
 		return nil
+	case *ReflVal:
+		return []*Term{ex.abstractItem(x.IV)}
 	case *TupleVal:
 		var r []*Term
 		for _, f := range x.V {
@@ -508,6 +510,16 @@ func (ex *Exec) builtin(st *State, b *ssa.Builtin, args []Value, x *ssa.Call) Va
 		return nil
 	case "print", "println":
 		return nil
+	case "ssa:wrapnilchk":
+		// value-receiver method invoked through a nil pointer panics
+		if p, ok := args[0].(*PtrVal); ok {
+			for _, al := range p.Alts {
+				if al.O == nil {
+					ex.panicIf(st, al.C, "value-method-on-nil-pointer", x.Pos())
+				}
+			}
+		}
+		return args[0]
 	case "min", "max":
 		a, b2 := args[0].(*Term), args[1].(*Term)
 		if b.Name() == "min" {
@@ -730,6 +742,24 @@ func init() {
 	}
 	externals["(time.Time).IsZero"] = func(ex *Exec, st *State, a []Value, x *ssa.Call) Value {
 		return Eq(Inst(a[0].(*Term)), IntLit(0))
+	}
+	// Unix-style accessors: integer division of the instant (the epoch shift is a multiple of the
+	// unit and does not affect comparisons between two such values)
+	for name, unit := range map[string]int64{"Unix": 1000000000, "UnixMilli": 1000000, "UnixMicro": 1000, "UnixNano": 1} {
+		unit := unit
+		externals["(time.Time)."+name] = func(ex *Exec, st *State, a []Value, x *ssa.Call) Value {
+			if unit == 1 {
+				return Inst(a[0].(*Term))
+			}
+			return mk("div", "", SInt, Inst(a[0].(*Term)), IntLit(unit))
+		}
+	}
+	externals["(time.Time).Sub"] = func(ex *Exec, st *State, a []Value, x *ssa.Call) Value {
+		return Sub(Inst(a[0].(*Term)), Inst(a[1].(*Term)))
+	}
+	externals["(time.Time).Compare"] = func(ex *Exec, st *State, a []Value, x *ssa.Call) Value {
+		p, q := Inst(a[0].(*Term)), Inst(a[1].(*Term))
+		return Ite(Lt(p, q), IntLit(-1), Ite(Gt(p, q), IntLit(1), IntLit(0)))
 	}
 	externals["(time.Time).UTC"] = func(ex *Exec, st *State, a []Value, x *ssa.Call) Value {
 		t := a[0].(*Term)
